@@ -61,6 +61,15 @@ func cloneISM(m *gabi.IssueSignatureMessage) *gabi.IssueSignatureMessage {
 	return out
 }
 
+func dumpISMSafe(m *gabi.IssueSignatureMessage) (out map[string]any) {
+	defer func() {
+		if recover() != nil {
+			out = map[string]any{"note": "message with missing fields"}
+		}
+	}()
+	return dumpISM(m)
+}
+
 func dumpISM(m *gabi.IssueSignatureMessage) map[string]any {
 	out := map[string]any{"m_issuer": dumpMap(m.MIssuer)}
 	if m.Proof != nil {
@@ -305,6 +314,10 @@ func c06Config(r *mon.Run, cfg c06cfg, jr *rand.Rand, idx int) {
 		case pv != nil:
 			r.Eval(family, "panic")
 			r.PanicSeen(mon.PanicSite(stack))
+			if !honest && !strings.HasPrefix(desc, "attrs") {
+				r.Violation("C06/receiver-panics-on-deviating-message@"+mon.PanicSite(stack), fmt.Sprintf("ConstructCredential panics instead of rejecting a deviating issuer message (%s): %v (%s)", desc, pv, cfg),
+					map[string]any{"config": cfg.String(), "fault": desc, "delivered": dumpISMSafe(m)})
+			}
 			if honest {
 				r.Violation("C06/honest-run-fails", fmt.Sprintf("ConstructCredential panicked on the honest message: %v (%s)", pv, cfg), map[string]any{"config": cfg.String()})
 			}
@@ -377,6 +390,15 @@ func c06Config(r *mon.Run, cfg c06cfg, jr *rand.Rand, idx int) {
 		fault{"proofS other-run whole", func(m *gabi.IssueSignatureMessage) { m.Proof = cloneISM(other.run.Sig).Proof }},
 		fault{"message other-run whole", func(m *gabi.IssueSignatureMessage) { *m = *cloneISM(other.run.Sig) }},
 		fault{"signature.e next-prime (A recomputed impossible)", func(m *gabi.IssueSignatureMessage) { m.Signature.E = nextPrime(add(m.Signature.E, bi(2))) }},
+		// fields missing from the issuer's message (a JSON document without them decodes to nil)
+		fault{"proof missing", func(m *gabi.IssueSignatureMessage) { m.Proof = nil }},
+		fault{"proofS.c missing", func(m *gabi.IssueSignatureMessage) { m.Proof.C = nil }},
+		fault{"proofS.e_response missing", func(m *gabi.IssueSignatureMessage) { m.Proof.EResponse = nil }},
+		fault{"signature missing", func(m *gabi.IssueSignatureMessage) { m.Signature = nil }},
+		fault{"signature.A missing", func(m *gabi.IssueSignatureMessage) { m.Signature.A = nil }},
+		fault{"signature.e missing", func(m *gabi.IssueSignatureMessage) { m.Signature.E = nil }},
+		fault{"signature.v missing", func(m *gabi.IssueSignatureMessage) { m.Signature.V = nil }},
+		fault{"m_issuer missing", func(m *gabi.IssueSignatureMessage) { m.MIssuer = nil }},
 	)
 	if base.NonRevocationWitness != nil {
 		intf("witness.u", func(m *gabi.IssueSignatureMessage) **big.Int { return &m.NonRevocationWitness.U }, other.run.Sig.NonRevocationWitness.U)
@@ -398,6 +420,9 @@ func c06Config(r *mon.Run, cfg c06cfg, jr *rand.Rand, idx int) {
 				m.NonRevocationWitness.SignedAccumulator = cloneSAcc(s)
 			}},
 			fault{"witness dropped", func(m *gabi.IssueSignatureMessage) { m.NonRevocationWitness = nil }},
+			fault{"witness.u missing", func(m *gabi.IssueSignatureMessage) { m.NonRevocationWitness.U = nil }},
+			fault{"witness.e missing", func(m *gabi.IssueSignatureMessage) { m.NonRevocationWitness.E = nil }},
+			fault{"witness.sacc missing", func(m *gabi.IssueSignatureMessage) { m.NonRevocationWitness.SignedAccumulator = nil }},
 		)
 	}
 	for _, f := range faults {
